@@ -78,6 +78,9 @@ def shards(tier, seed):
         out.append({"N": 140000, "sched": sch, "win": win, "backend": backend, "seed": seed, "tier": tier,
                     "case": {"N": 140000, "sched": sch, "win": win, "backend": backend, "order": 0, "olap": 0.5, "Jdes": 8,
                              "Kdes": 2, "bmin": 1.0, "Lmin": 1, "mode": mode, "rx": "low1", "ry": "low2", "seed": seed, "light": True}})
+    # a user-supplied scheduler whose grid is not sorted (a log grid with a linear zoom region appended) analysed with bands
+    for backend in ("numba", "numpy"):
+        out.append({"N": 600, "sched": "custom-zoom", "win": "hann", "backend": backend, "seed": seed, "tier": tier, "customband": True})
     out.sort(key=lambda s: -s["N"] * (30 if s["backend"] == "cuda" else 1))
     return pairhist.shards_for(PROPERTY) + out
 
@@ -96,6 +99,8 @@ def run_shard(shard):
         return json.loads(p.stdout.splitlines()[-1])
     if shard.get("forceband"):
         return _forceband(shard)
+    if shard.get("customband"):
+        return _customband(shard)
     if "case" in shard:
         return _one(shard["case"], full=not shard["case"].get("light"))
     ana.quiet()
@@ -174,9 +179,62 @@ def _forceband(shard):
     return out
 
 
+def _customband(shard):
+    """Band restriction with a plan from a user-supplied scheduler whose frequencies are not in ascending order."""
+    from speckit.schedulers import ltf_plan
+
+    ana.quiet()
+    N, fs = shard["N"], 2.0
+    x, y = records.get("id1", N, shard["seed"]), records.get("id3", N, shard["seed"])
+    out = {"evals": 0, "nontrivial": 0, "failures": [], "samples": [], "extra": {"analyses": 0, "bins": 0, "single_bin": 0, "bands": 0}}
+
+    def zoom_plan(**kw):
+        p = ltf_plan(**kw)
+        Lz, Kz = 64, 1 + (N - 64) // 32
+        fz = 0.31 + 0.004 * np.arange(9)
+        Dz = [np.arange(Kz, dtype=np.int64) * 32 for _ in fz]
+        q = {"f": np.concatenate([np.asarray(p["f"], float), fz]), "r": np.concatenate([np.asarray(p["r"], float), np.full(9, fs / Lz)]),
+             "b": np.concatenate([np.asarray(p["b"], float), fz * Lz / fs]), "L": np.concatenate([np.asarray(p["L"]), np.full(9, Lz)]).astype(np.int64),
+             "K": np.concatenate([np.asarray(p["K"]), np.full(9, Kz)]).astype(np.int64), "navg": np.concatenate([np.asarray(p["navg"]), np.full(9, Kz)]).astype(np.int64),
+             "O": np.concatenate([np.asarray(p["O"], float), np.full(9, 0.5)]), "D": [np.asarray(d, dtype=np.int64) for d in p["D"]] + Dz}
+        q["nf"] = len(q["f"])
+        return q
+
+    kw = dict(olap=0.5, Jdes=14, Kdes=3, order=0, scheduler=zoom_plan, backend=shard["backend"], win="hann")
+    for mode in ("auto", "cross"):
+        data = x.copy() if mode == "auto" else np.stack([x, y])
+        try:
+            full = ana.make_analyzer(data, fs, **kw).compute()
+        except Exception as e:  # noqa: BLE001
+            out["evals"] += 1
+            out["failures"].append(fw.fail(f"customband/raises/{mode}", f"analysis with a user-supplied scheduler raised {type(e).__name__}: {e}", dict(shard)))
+            continue
+        pf, rf = ana.plan_fields(full), ana.raw_fields(full)
+        f = pf["f"]
+        for lo, hi in ((0.3, 0.35), (0.2, 0.5), (0.0, 0.32), (0.325, 1.0), (0.05, 0.3)):
+            mask = (f >= lo) & (f <= hi)
+            out["evals"] += 1
+            out["extra"]["bands"] += 1
+            out["nontrivial"] += int(mask.any())
+            try:
+                b = ana.make_analyzer(data, fs, band=(lo, hi), **kw).compute()
+            except Exception as e:  # noqa: BLE001
+                out["failures"].append(fw.fail(f"customband/raises/{mode}", f"band=({lo},{hi}) raised {type(e).__name__}: {e} ({int(mask.sum())} bins in band)", dict(shard)))
+                continue
+            bp, br = ana.plan_fields(b), ana.raw_fields(b)
+            prob = [k for k in ana.PLANF if np.asarray(bp[k]).shape != np.asarray(pf[k][mask]).shape or not np.allclose(np.asarray(bp[k], dtype=float), np.asarray(pf[k][mask], dtype=float), rtol=1e-13, atol=0)]
+            prob += [k for k in ana.RAW if br[k].shape != rf[k][mask].shape or not np.allclose(br[k], rf[k][mask], rtol=1e-12, atol=0)]
+            if prob and not any(f_["key"] == f"customband/{mode}" for f_ in out["failures"]):
+                out["failures"].append(fw.fail(f"customband/{mode}", f"user-supplied scheduler with an unsorted grid, band=({lo},{hi}): banded analysis has {len(bp['f'])} bins, the unrestricted one has {int(mask.sum())} in that band; fields {prob} differ", dict(shard)))
+    out["samples"].append({"customband": shard["backend"]})
+    return out
+
+
 def replay(case):
     if case.get("forceband"):
         return _forceband(case)["failures"]
+    if case.get("customband"):
+        return _customband(case)["failures"]
     if case.get("part") == "pairs":
         return run_shard(case)["failures"]
     return run_shard({"backend": case["backend"], "case": case})["failures"]
